@@ -556,6 +556,11 @@ func init() {
 					c.Bound = fmt.Sprintf("all lists of length 0..%d", maxL)
 				}})
 			}
+			fdepth := 5
+			if tier == "thorough" {
+				fdepth = 6
+			}
+			sh = append(sh, vShard{Name: "fusion/object-histories", Run: func(c *vCtx) { vFusionObjectsMC(c, fdepth) }})
 			// long lists: n distinct ids followed / preceded / interleaved by repeats of early,
 			// middle and late ids, for every n in 1..130 and a few larger (growth of internal
 			// tables, pointer stability, counts per id)
